@@ -44,6 +44,67 @@ Definition err_code (e : econf_err) : N :=
 
 Definition err_eqb (a b : econf_err) : bool := err_code a =? err_code b.
 
+(* lib/econf_error.c: the documented message of every code *)
+Definition err_message (e : econf_err) : str :=
+  match e with
+  | ECONF_SUCCESS => bs "Success"
+  | ECONF_ERROR => bs "Unknown error"
+  | ECONF_NOMEM => bs "Out of memory"
+  | ECONF_NOFILE => bs "Configuration file not found"
+  | ECONF_NOGROUP => bs "Group not found"
+  | ECONF_NOKEY => bs "Key not found"
+  | ECONF_EMPTYKEY => bs "Key is NULL or has empty value"
+  | ECONF_WRITEERROR => bs "Error creating or writing to a file"
+  | ECONF_PARSE_ERROR => bs "Parse error"
+  | ECONF_MISSING_BRACKET => bs "Missing bracket"
+  | ECONF_MISSING_DELIMITER => bs "Missing delimiter"
+  | ECONF_EMPTY_SECTION_NAME => bs "Empty section name"
+  | ECONF_TEXT_AFTER_SECTION => bs "Text after section"
+  | ECONF_FILE_LIST_IS_NULL => bs "Conf file list is NULL"
+  | ECONF_WRONG_BOOLEAN_VALUE => bs "Wrong boolean value (1/0 true/false yes/no)"
+  | ECONF_KEY_HAS_NULL_VALUE => bs "Given key has NULL value"
+  | ECONF_WRONG_OWNER => bs "File has wrong owner"
+  | ECONF_WRONG_GROUP => bs "File has wrong group"
+  | ECONF_WRONG_FILE_PERMISSION => bs "File has wrong file permissions"
+  | ECONF_WRONG_DIR_PERMISSION => bs "File has wrong dir permissions"
+  | ECONF_ERROR_FILE_IS_SYM_LINK => bs "File is a sym link which is not permitted"
+  | ECONF_PARSING_CALLBACK_FAILED => bs "User defined parsing callback has failed"
+  | ECONF_ARGUMENT_IS_NULL_VALUE => bs "Given argument is NULL"
+  | ECONF_OPTION_NOT_FOUND => bs "Given option not found"
+  | ECONF_VALUE_CONVERSION_ERROR => bs "Value cannot be converted"
+  end.
+
+Definition err_name (e : econf_err) : str :=
+  match e with
+  | ECONF_SUCCESS => bs "ECONF_SUCCESS" | ECONF_ERROR => bs "ECONF_ERROR" | ECONF_NOMEM => bs "ECONF_NOMEM"
+  | ECONF_NOFILE => bs "ECONF_NOFILE" | ECONF_NOGROUP => bs "ECONF_NOGROUP" | ECONF_NOKEY => bs "ECONF_NOKEY"
+  | ECONF_EMPTYKEY => bs "ECONF_EMPTYKEY" | ECONF_WRITEERROR => bs "ECONF_WRITEERROR"
+  | ECONF_PARSE_ERROR => bs "ECONF_PARSE_ERROR" | ECONF_MISSING_BRACKET => bs "ECONF_MISSING_BRACKET"
+  | ECONF_MISSING_DELIMITER => bs "ECONF_MISSING_DELIMITER" | ECONF_EMPTY_SECTION_NAME => bs "ECONF_EMPTY_SECTION_NAME"
+  | ECONF_TEXT_AFTER_SECTION => bs "ECONF_TEXT_AFTER_SECTION" | ECONF_FILE_LIST_IS_NULL => bs "ECONF_FILE_LIST_IS_NULL"
+  | ECONF_WRONG_BOOLEAN_VALUE => bs "ECONF_WRONG_BOOLEAN_VALUE" | ECONF_KEY_HAS_NULL_VALUE => bs "ECONF_KEY_HAS_NULL_VALUE"
+  | ECONF_WRONG_OWNER => bs "ECONF_WRONG_OWNER" | ECONF_WRONG_GROUP => bs "ECONF_WRONG_GROUP"
+  | ECONF_WRONG_FILE_PERMISSION => bs "ECONF_WRONG_FILE_PERMISSION" | ECONF_WRONG_DIR_PERMISSION => bs "ECONF_WRONG_DIR_PERMISSION"
+  | ECONF_ERROR_FILE_IS_SYM_LINK => bs "ECONF_ERROR_FILE_IS_SYM_LINK"
+  | ECONF_PARSING_CALLBACK_FAILED => bs "ECONF_PARSING_CALLBACK_FAILED"
+  | ECONF_ARGUMENT_IS_NULL_VALUE => bs "ECONF_ARGUMENT_IS_NULL_VALUE" | ECONF_OPTION_NOT_FOUND => bs "ECONF_OPTION_NOT_FOUND"
+  | ECONF_VALUE_CONVERSION_ERROR => bs "ECONF_VALUE_CONVERSION_ERROR"
+  end.
+
+(* econf_errString: codes beyond the table get a generic text *)
+Definition err_string (n : N) : str :=
+  match find (fun e => err_code e =? n) all_errs with
+  | Some e => err_message e
+  | None => bs "Unknown libeconf error " ++
+            (* %i of a small non-negative number *)
+            (fix digits (fuel : nat) (z : N) (acc : str) : str :=
+               match fuel with
+               | O => acc
+               | S f => let acc' := (48 + z mod 10) :: acc in
+                        if z / 10 =? 0 then acc' else digits f (z / 10) acc'
+               end) 20%nat n []
+  end.
+
 (* ------------------------------------------------------------------ *)
 (* The object *)
 
